@@ -19,6 +19,7 @@ import (
 	"time"
 
 	"github.com/fluffle/goirc/client"
+	"github.com/fluffle/goirc/logging"
 	"github.com/fluffle/goirc/state"
 	"verifharness/sess"
 )
@@ -179,6 +180,19 @@ type sessionOpts struct {
 	linger   bool   // handlers linger now and then
 	misbe    bool   // handlers panic / block now and then
 	holdInt  bool   // delay the internal phase now and then
+	defRecov bool   // leave Config.Recover at its default (LogPanic): the recovery shows as an error record of the logger
+}
+
+// recLogger turns the error record of the default recovery function into a "recover" event.
+type recLogger struct{ onPanic func() }
+
+func (r *recLogger) Debug(string, ...interface{}) {}
+func (r *recLogger) Info(string, ...interface{})  {}
+func (r *recLogger) Warn(string, ...interface{})  {}
+func (r *recLogger) Error(f string, a ...interface{}) {
+	if strings.Contains(f, "panic") {
+		r.onPanic()
+	}
 }
 
 var holdInt struct {
@@ -217,7 +231,18 @@ func runSession(t *tlog, o sessionOpts, rng *rand.Rand) (stats map[string]int, e
 	rnd := func(n int) int { rmu.Lock(); defer rmu.Unlock(); return hrng.Intn(n) }
 	t.add(event{Ev: "reset"})
 	var gen2 int32 // set when a "reconnect" session is on its second connection, which is not recorded
+	if o.defRecov {
+		logging.SetLogger(&recLogger{onPanic: func() {
+			if atomic.LoadInt32(&gen2) == 0 {
+				t.add(event{Ev: "recover"})
+			}
+		}})
+		defer logging.SetLogger(nil)
+	}
 	s := sess.New(func(c *client.Config) {
+		if o.defRecov {
+			return
+		}
 		c.Recover = func(conn *client.Conn, l *client.Line) {
 			if x := recover(); x != nil && atomic.LoadInt32(&gen2) == 0 {
 				t.add(event{Ev: "recover"})
@@ -474,6 +499,9 @@ func RunPhases(args []string) int {
 	for i := 0; i < *n; i++ {
 		o := sessionOpts{lines: 10 + rng.Intn(*lines), tracking: i%5 != 4, linger: i%2 == 0, misbe: i%3 != 0, holdInt: i%2 == 1}
 		o.end = []string{"", "", "eof", "close"}[i%4]
+		if i%8 == 7 {
+			o.defRecov, o.misbe = true, true
+		}
 		if i%16 == 5 {
 			o.end, o.misbe, o.tracking = "reconnect", false, true
 		}
